@@ -339,7 +339,8 @@ func (progBldr *ProgBuilder) CodePathOper(elem int) {
 func (progBldr *ProgBuilder) CodeNameTest(name xml.Name) {
 
 	nameTestPush := func(ctx *context) {
-		if ctx.predicateCount > 0 && ctx.predicateEvalPath%2 == 0 {
+		if ctx.predicateCount > 0 && ctx.predicateEvalPath == 0 {
+			// first name in a predicate is the key name
 			ctx.pushDatum(NewLiteralDatum(name.Local))
 		} else {
 			//fmt.Println(utils.ToXPath(ctx.GetActualPath(),false))
@@ -572,9 +573,9 @@ func (progBldr *ProgBuilder) EvalLocPath(ctx *context) {
 	if ctx.predicateCount > 0 {
 		// we add 1 to predicateEvalPath
 		ctx.predicateEvalPath += 1
-		// and the value of predicateEvalPath is uneven (hence the left side of the assignment [=], since we've already added 1 to predicateEvalPath early)
-		// then we skip the resolution for the value
-		if ctx.predicateEvalPath%2 == 1 {
+		// and this is the first path of the predicate (hence the left side of the assignment [=], since we've already added 1 to predicateEvalPath early)
+		// then we skip the resolution for the value; every later path (the operand may hold several) is resolved
+		if ctx.predicateEvalPath == 1 {
 			return
 		}
 
